@@ -1,6 +1,7 @@
 import DeltaModel.Proto
 import DeltaModel.Wrap
 import DeltaModel.SideBySide
+import DeltaModel.MaxLineLength
 /-
 Model driver for C07 (`drv_wrap`): answers the same `wrap.*` requests as
 /repo/src/verif_hooks/wrap.rs, by running the model functions of DeltaModel.Wrap and
@@ -265,6 +266,19 @@ def stepWrap (line : String) : String :=
           | _ => true
         let pw := panelWidths w ansi
         "ok " ++ toString pw.1 ++ " " ++ toString pw.2 ++ " " ++ toString w
+  | "wrap.maxlen" :: fs =>
+    -- wrap.maxlen <side-by-side 0|1> <--wrap-max-lines: number, or - for unlimited> <--max-line-length>
+    --   <available terminal width> <decorations width: N for Fixed(N), - for Variable>
+    --   ->  ok <Config::max_line_length>   (Config::from + config_max_line_length)
+    let p : P String := do
+      let sbs ← pNum
+      let wml ← pOptNum
+      let mll ← pNum
+      let w ← pNum
+      let fw ← pOptNum
+      pEnd
+      pure ("ok " ++ toString (MaxLen.configMaxLen (sbs == 1) wml mll w fw))
+    (run p fs).getD "ERR"
   | _ => "ERR"
 
 def main : IO Unit := serve stepWrap
